@@ -43,6 +43,19 @@ def run_property(prop, tier, seed):
     hit = {}
     lines = []
     seen_keys = {}
+    # fixed findings suppress nothing: their failing cases are replayed on every run
+    n_regr = 0
+    kpath = os.path.join(VERIF, "known_findings.json")
+    if os.path.exists(kpath) and hasattr(mod, "replay"):
+        with open(kpath) as f:
+            fixed = [k for k in json.load(f).get("findings", []) if k.get("status") == "fixed" and k["property"] == prop]
+        for k in fixed:
+            with open(os.path.join(VERIF, k["reproducer"])) as f:
+                body = json.load(f)
+            n_regr += 1
+            v = mod.replay(body["violation"])
+            if v:
+                r["violations"].append({"key": "regression of fixed finding " + k["id"], "case": body["violation"], "now": v})
     for v in r["violations"]:
         kf = next((k for k in known if k["match_key"] == v["key"]), None)
         if kf is not None:
@@ -71,6 +84,7 @@ def run_property(prop, tier, seed):
         cov.setdefault("exhaustive", r.get("exhaustive", True))
         cov.setdefault("explanation", r.get("rule", ""))
     cov["known_findings_hit"] = sorted(hit)
+    cov["fixed_finding_cases_replayed"] = n_regr
     evidence = {
         "property_id": prop,
         "tier": tier,
